@@ -215,6 +215,42 @@ func C07State(s *Snap) []engine.Finding {
 	return out
 }
 
+// C07Withdrawable probes "pledged funds return to the pledger, in full" for the capacity pledge: a provider none of
+// whose capacity backs a shard must be able to withdraw all of it, and that withdrawal must return its whole capacity
+// pledge. The probe runs the real RemoveVstorage handler for exactly the recorded capacity on a branch of the state.
+func C07Withdrawable(w *world.World, ctx sdk.Context, s *Snap) []engine.Finding {
+	var out []engine.Finding
+	for _, sp := range sortedKeys(s.Pledges) {
+		p := s.Pledges[sp]
+		if p.UsedStorage != 0 || p.TotalStorage <= 0 || !p.TotalStoragePledged.Amount.IsPositive() {
+			continue
+		}
+		if _, isNode := s.Nodes[sp]; !isNode {
+			continue
+		}
+		msg := &nodetypes.MsgRemoveVstorage{Creator: sp, Size_: uint64(p.TotalStorage)}
+		cctx, _ := ctx.CacheContext()
+		cctx = cctx.WithGasMeter(sdk.NewGasMeter(20_000_000)).WithEventManager(sdk.NewEventManager())
+		var err error
+		func() {
+			defer func() {
+				if r := recover(); r != nil {
+					err = fmt.Errorf("panic: %v", r)
+				}
+			}()
+			_, err = w.App.MsgServiceRouter().Handler(msg)(cctx, msg)
+		}()
+		if err != nil {
+			out = append(out, fd("C07", "idle-capacity-not-withdrawable", "rejected", fmt.Sprintf("%s holds %d bytes of capacity, none of it used, pledge %s: withdrawing all of it is refused: %v", s.w.NameOf(sp), p.TotalStorage, p.TotalStoragePledged.Amount, err)))
+			continue
+		}
+		if q, ok := w.App.NodeKeeper.GetPledge(cctx, sp); ok && q.TotalStoragePledged.Amount.IsPositive() {
+			out = append(out, fd("C07", "idle-capacity-not-withdrawable", "pledge-stranded", fmt.Sprintf("%s holds %d bytes of capacity, none of it used, pledge %s: after withdrawing all of it %s stays pledged with %d bytes left", s.w.NameOf(sp), p.TotalStorage, p.TotalStoragePledged.Amount, q.TotalStoragePledged.Amount, q.TotalStorage)))
+		}
+	}
+	return out
+}
+
 // ---------------------------------------------------------------------------------------------
 // step clauses
 
